@@ -157,7 +157,7 @@ def parse(data, text, harnesses, timeout_s):
             "harness": h.name, "id": hid, "profile": h.profile, "props": h.props,
             "funcs": h.funcs, "bound": h.bound, "free_bits": h.free_bits,
             "expect": h.expect, "should_panic": h.should_panic,
-            "stubs": h.stubs, "assumes": h.assumes, "must_panic": h.must_panic,
+            "stubs": h.stubs, "assumes": h.assumes, "must_panic": h.must_panic, "may_panic": h.may_panic,
         }
         if r is None:
             # not in JSON: timed out, crashed, or never ran
